@@ -7,6 +7,6 @@ ASSUMPTIONS = ['succeed()/fail() applied to a Process or Condition object is out
                'CPython generator send/throw semantics; the exception copy is type(v)(*v.args)']
 SPEC = [(6, 'outcome'), (2, 'time'), (1, 'cond'), (1, 'intr'), (1, 'victim'), (2, 'plan:outcome'), (1, 'untilfail')]
 def run(ctx):
-    res = kprops.run_kernel(ctx, 'C02', SPEC, 2000, 60000, oracles=[kprops.oracle_time_monotone, koracle.oracle_c02, koracle.oracle_until_failed])
+    res = kprops.run_kernel(ctx, 'C02', SPEC, 2000, 60000, attribute=kprops.stop_is_not_the_cause, oracles=[kprops.oracle_time_monotone, koracle.oracle_c02, koracle.oracle_until_failed])
     res['coverage'].update(kbridge.coverage('C02'))
     return res
